@@ -27,7 +27,7 @@ from fractions import Fraction
 import numpy as np
 
 import twoindex
-from lib import XShell, call_impl, compare, gen_shell, run_cases, short_float, shrink_shell_json, sx
+from lib import XShell, call_impl, compare, far_near_centres, gen_shell, run_cases, short_float, shrink_shell_json, sx
 
 TOL1 = 1e-9    # overlap, kinetic, point charge: "violations below 1e-9 of the largest eigenvalue or element"
 TOL2 = 1e-6    # repulsion array
@@ -44,7 +44,11 @@ RULE = ("bases of 1-5 shells, l 0..3, K 1-3 primitives, M 1-3 segmented contract
         "functions) in chemists' or physicists' notation (transposed back); family one-atom-far (quick 4, thorough 48 "
         "cases): one atom at a 53-bit position 4..150 bohr per axis from the origin with a contracted f shell (two "
         "exponents in 0.2..5) alone or with a p/d/f shell on the same centre (L = 11, 12 quartets, Boys arguments of "
-        "1e-31..1e-26 from product centres that differ by an ulp). A case is non-trivial when the basis has "
+        "1e-31..1e-26 from product centres that differ by an ulp); family near-pair-far (quick 4, thorough 32 cases): two "
+        "shells with l in 1..2 (d p, p d, p p, d d; exponents 4..10) on DISTINCT centres agreeing per component to "
+        "within (0.5..0.95)e-5 RELATIVE to the coordinate, 50-100 bohr per axis from the origin (3e-4..1e-3 bohr apart), "
+        "plus an s shell within 0.4 bohr, 53-bit coordinates, shuffled order, both notations (the p p s cases are also "
+        "compared elementwise with the exact model). A case is non-trivial when the basis has "
         ">= 2 functions; distinct by the hash of the exact input. Decision in exact rational arithmetic on the "
         "implementation's float entries; tolerances are the property's (1e-9 / 1e-6 of the largest eigenvalue or "
         "element; unit diagonal 1e-8 as in C01).")
@@ -601,6 +605,25 @@ def gen_cases(tier, seed):
             basis.reverse()
         cases.append({"kind": "eri", "basis": [s.to_json() for s in basis], "geom": "one-atom-far", "dep": "-",
                       "notation": "physicist" if i % 3 == 1 else "chemist", "tier": tier, "cmp": False})
+    # near-pair-far: two shells with l >= 1 on DISTINCT centres that agree per component to within 1e-5 RELATIVE to the
+    # coordinate (3e-4 .. 1e-3 bohr apart, 50-100 bohr per axis from the origin; tight exponents 4..10 so that
+    # |AB| sqrt(alpha) ~ 1e-3) plus an s shell within 0.4 bohr.  The pair products d_A p_B are nearly linearly dependent
+    # (d_xy p_x ~ d_xx p_y), the true pair matrix has eigenvalues O(|AB|^2) there: a kernel that treats the two centres
+    # as one in the bra only (tolerance relative to the coordinates) gives an unsymmetric, indefinite pair matrix
+    rng4 = random.Random(1000003 * seed + 171717)
+    for i in range(4 if quick else 32):
+        la, lb = ((2, 1), (1, 2), (1, 1), (2, 1), (2, 2), (1, 2))[i % (4 if quick else 6)]
+        A, B, C = far_near_centres(rng4)
+        sph = i % 4 == 3 if quick else rng4.random() < 0.3
+        a = gen_shell(rng4, l=la, kmax=1, mmax=1, sph=sph, exp_lo=4.0, exp_hi=10.0, coord=A)
+        b = gen_shell(rng4, l=lb, kmax=1, mmax=1, sph=sph, exp_lo=4.0, exp_hi=10.0, coord=B)
+        c = gen_shell(rng4, l=0, kmax=1 if la + lb == 2 else 2, mmax=1, sph=False, exp_lo=1.0, exp_hi=10.0, coord=C)
+        basis = [a, b, c]
+        rng4.shuffle(basis)
+        case = {"kind": "eri", "basis": [s.to_json() for s in basis], "geom": "near-pair-far", "dep": "-",
+                "notation": "physicist" if i % 3 == 1 else "chemist", "tier": tier}
+        case["cmp"] = bool(eri_model_affordable(basis, tier) and _in_c04_range(basis))
+        cases.append(case)
     return cases
 
 
